@@ -90,7 +90,14 @@ def gen_foreign(rng):
             indent = rng.choice([0, 1, 4, 9])
             opts['indent'] = str(indent)
             if indent:
-                raw = b''.join(b' ' * indent + l for l in specdoc.split_keep(raw, nl))
+                # another producer may under-indent a line (a hand-wrapped bullet, a bare blank
+                # line): the reading removes up to `indent` spaces, so a line that does not itself
+                # begin with a space byte reads the same with 0..indent spaces in front of it
+                def pad(l):
+                    if l[:1] != b' ' and rng.random() < 0.25:
+                        return b' ' * rng.randrange(indent) + l
+                    return b' ' * indent + l
+                raw = b''.join(pad(l) for l in specdoc.split_keep(raw, nl))
         # line_endings may be omitted only when first-line detection agrees
         det = specdoc.detect_dos_bytes(raw, enc)
         if rng.random() < 0.6 or det != dos:
@@ -328,7 +335,7 @@ def explore(ctx, escalate=False, hint=None):
     else:
         budget = (700, 4)
     rule = ('%d well-formed foreign files from a specification-derived generator (shuffled options, optional options '
-            'absent, blank / whitespace-only lines, CRLF header lines, compact / 2-space / canonical JSON, indent 0-9, '
+            'absent, blank / whitespace-only lines, CRLF header lines, compact / 2-space / canonical JSON, indent 0-9 with under-indented lines, '
             '8 codec spellings, nested encodings) each with %d single-defect mutations from the catalogue %s; three-way: '
             'implementation / Lean model / specification reading (id, level, logical line, typed options, content); '
             'distinct by file bytes; the well-formed documents additionally through the Lean specification: Spec.render '
